@@ -27,6 +27,25 @@ def reply (toks : List String) : String :=
     match Wire.strOfHex h with
     | some t => let c := Language.fromTag t; s!"{c} {Wire.hexOfStr (Language.tag c)}"
     | none => "bad-request"
+  | ["ts_rt", secs, nanos] =>
+    match secs.toInt?, nanos.toNat? with
+    | some s, some n =>
+      let t : Int := s * 1000000000 + n
+      match Timestamp.toSystemTime (Timestamp.fromSystemTime t) with
+      | some r =>
+        match Timestamp.toSystemTime (Timestamp.fromSystemTime r) with
+        | some r2 => s!"{r / 1000000000} {r % 1000000000} {r2 / 1000000000} {r2 % 1000000000}"
+        | none => "panic"
+      | none => "panic"
+    | _, _ => "bad-request"
+  | ["ts_save", secs, nanos] =>
+    match secs.toInt?, nanos.toNat? with
+    | some s, some n =>
+      let t : Int := s * 1000000000 + n
+      match Timestamp.toSystemTime (Timestamp.fromSystemTime t) with
+      | some r => s!"{r / 1000000000} {r % 1000000000}"
+      | none => "panic"
+    | _, _ => "bad-request"
   | _ => "bad-request"
 
 partial def loop (inp : IO.FS.Stream) (out : IO.FS.Stream) : IO Unit := do
